@@ -110,11 +110,11 @@ var ruleAddenda9 = map[string]string{
 var ruleAddenda10 = map[string]string{
 	"C01": "s.idiom duplex-split3: both endpoints write and read at once and every transport write is delivered in two pieces (a frame header arrives in two transport reads while the endpoint's own writer runs).",
 	"C02": "WC-cancel0-huge: a compressed Write of 140000 sparse-noise bytes (two deflate blocks, frames emitted before the call ends) whose context is cancelled between two of its frames, then a small message that goes out uncompressed.",
-	"C03": "s.pools: the read-side three-party history (A closed in the middle of a compressed message, B opened meanwhile, B's message arriving in two halves) judged on the bystander: B's valid stream yields B's message.",
+	"C03": "Part afterviolation: after a read failed on a protocol violation, the next reads must not deliver anything (the rejected frame's unread payload is laid out as valid frames). s.pools: the read-side three-party history (A closed in the middle of a compressed message, B opened meanwhile, B's message arriving in two halves) judged on the bystander: B's valid stream yields B's message.",
 	"C05": "Part fault (seqx): the transport-write faults of C02 judged by C05's clauses (frames atomic, received messages are written messages).",
 	"C06": "s.xconn: Close(4001, \"bye\") on a fresh connection while another connection is being closed; simultaneous close with another goroutine's data frame stuck in the transport: the Close frame carries exactly the local code and reason or exactly the peer's.",
 	"C07": "prog-kept: slices returned by Conn.Read, also together with an error (transport cut mid-message), are looked at again after reads on other connections; conc-*-blate: the bystander's message arrives in two halves.",
-	"C08": "Lying frame headers (2^28, 2^40 declared bytes) met by the close handshake (Close, CloseRead) instead of a reader; s.slowpeer: an over-limit message has been received, the peer accepts nothing until 1 s, the reader's context ends at 500 ms (or not): the 1009 Close frame still goes out.",
+	"C08": "Part afterviolation: after an over-limit failure the next reads must not deliver the rest of the oversized message as messages. Lying frame headers (2^28, 2^40 declared bytes) met by the close handshake (Close, CloseRead) instead of a reader; s.slowpeer: an over-limit message has been received, the peer accepts nothing until 1 s, the reader's context ends at 500 ms (or not): the 1009 Close frame still goes out.",
 	"C09": "Adversaries pingNoRead (a Ping right after the connection's Close frame from a peer that stops reading) and latePing (header and half the payload of a Ping 4.9 s into the wait); rule: once the Close frame is on the wire Close returns within about 5 s.",
 	"C10": "s.closer: Close called by another goroutine queues behind a Read/Write blocked on a silent peer; the blocked call's own context, cancelled at 1 s, still ends it promptly.",
 	"C11": "A same-host Origin header on every other request of the grammar; the key under the RFC spelling of the field name in a hand-built header map (refusal tolerated, a 101 must hash that key).",
